@@ -231,3 +231,24 @@ CHECKS["C12"] = {
         J("upgrades", AGENT, "TestC12Upgrades", {"shards": 8, "checks": 60}, {"shards": 16, "checks": 3000}, toolchain="go126"),
     ],
 }
+
+CHECKS["C19"] = {
+    "level": "exploration",
+    "engine": "E3 agent in-package",
+    "level_text": "The real hooks caller (real 5 s rate limit, real run loop, real /bin/sh hook processes that log name/argv/environment) driven under a virtual clock: generated notification "
+                  "patterns (0, 1, 2, many per interval; spacings of exactly the limit +-1 ns / +-1 ms; long gaps), generated hooks directories (executable, x-for-other-only, non-executable, hidden, "
+                  "symlink to executable / non-executable, dangling symlink, sub-directory, FIFO; world-writable or not), store-directory changes, and agent-level operation sequences "
+                  "(succeeding and failing add/update/set-admin/remove, read-only requests). Round times are derived by stepping the clock through every notification and timer instant.",
+    "level_note": "Trusted: testing/synctest (virtual time only advances when every goroutine is durably blocked, so a hook process finishes before the clock moves). The one-minute kill of a hanging hook "
+                  "needs real time and is covered only by the thorough black-box job. Entries that cannot write the log even if executed (non-executable, FIFO, directory, dangling) are only checked for robustness.",
+    "technique": "property-based testing (rapid) of timing patterns under a virtual clock (testing/synctest); invariant oracle over the observed hook-round log",
+    "oracle": "cover (every notification followed by a round not earlier than it), coalesce (any three consecutive rounds span >= the limit), no spurious round (#rounds <= #notifications, none before the first), "
+              "each round runs every eligible entry exactly once and no ineligible one, argv = [update], WHAWTY_AUTH_STORE = current base dir; failed/read-only operations notify nothing",
+    "rule": "a case = one hooks directory + one event pattern. Non-trivial = >= 2 notifications inside one interval or one within 1 ms of a timer edge; distinct = distinct "
+            "(per-interval count vector, edge flag, directory contents, world-writable, level, number of rounds)",
+    "assumptions": ["the implementation's pending counter is never consulted by the oracle"],
+    "required_classes": {"all": ["pattern:>=2-notifications-in-one-interval-or-within-1ms-of-the-timer", "case:eligible-hooks-and-notifications", "dir:world-writable", "level:agent=true", "level:agent=false"]},
+    "jobs": [
+        J("hooks", AGENT, "TestC19Hooks", {"shards": 8, "checks": 40}, {"shards": 16, "checks": 1500}, toolchain="go126"),
+    ],
+}
